@@ -106,18 +106,16 @@ func c10proj(c *Ctx) {
 
 func c10indexGuard(c *Ctx, p *pkgT) {
 	info := p.TypesInfo
-	// the axis adjustment: package function taking (*SR, bool, []float64)
+	// the axis adjustment: a package function given a coordinate slice together with the reference
+	// (or its axis string) that answers an unknown axis letter with an error — found by behaviour
 	var target *types.Func
 	for _, fn := range c.P.RepoFuncs() {
 		if c.P.DeclPkg(fn) != p {
 			continue
 		}
-		sig := fn.Type().(*types.Signature)
-		if sig.Recv() == nil && sig.Params().Len() == 3 {
-			if _, ok := sig.Params().At(2).Type().Underlying().(*types.Slice); ok && isNamed(sig.Params().At(0).Type(), modPath+"/proj", "SR") {
-				if b, isB := sig.Params().At(1).Type().Underlying().(*types.Basic); isB && b.Kind() == types.Bool {
-					target = fn
-				}
+		if _, ok := c10axisArgs(c, fn, "enu", false, 2, 0); ok && c10isAxisAdjuster(c, fn) {
+			if target == nil || c.P.FuncName(fn) < c.P.FuncName(target) {
+				target = fn
 			}
 		}
 	}
@@ -130,6 +128,10 @@ func c10indexGuard(c *Ctx, p *pkgT) {
 	}
 	fd := c.P.Decl(target)
 	ps := paramVars(info, fd.Type)
+	if len(ps) != 3 {
+		c.Unk("C10.R2", c.P.FuncName(target)+"#index-model", fd.Pos(), "the axis adjustment is not interpretable and does not have the (reference, flag, slice) form the syntactic rule reads")
+		return
+	}
 	pt := ps[2]
 	// minimum literal length over callers
 	minLen := int64(1 << 30)
@@ -350,7 +352,6 @@ func c10axisModel(c *Ctx, target *types.Func) bool {
 		return nil, false
 	}
 	letters := []byte("ewnsudx")
-	f64s := types.NewSlice(types.Typ[types.Float64])
 	runs := 0
 	name := c.P.FuncName(target) + "#index-model"
 	pos := c.P.Decl(target).Pos()
@@ -360,16 +361,9 @@ func c10axisModel(c *Ctx, target *types.Func) bool {
 				axis := string([]byte{a, b, d})
 				for _, n := range []int{2, 3} {
 					for _, denorm := range []bool{false, true} {
-						st := it.zero(srT).(*oStruct)
-						st.fields["Axis"] = strVal(types.Typ[types.String], axis)
-						st.fields["Name"] = strVal(types.Typ[types.String], "model")
-						vals := make([]oval, n)
-						for i := range vals {
-							vals[i] = oFloat{int64(10 + 2*i)}
-						}
-						pt := oSlice{typ: f64s, arr: &vals, lo: 0, hi: n, capEnd: n}
+						args, _ := c10axisArgs(c, target, axis, denorm, n, c10axisStringOrder[target])
 						runs++
-						res, why := it.Call(target, nil, []oval{oPtr{st}, oBool(denorm), pt}, 0)
+						res, why := it.Call(target, nil, args, 0)
 						if why != "" {
 							if strings.HasPrefix(why, "panic:") {
 								c.Bad("C10.R2", name, pos, "axis %q, denorm=%v, a %d-element coordinate slice (the transformer passes two ordinates): %s", axis, denorm, n, why)
@@ -383,7 +377,7 @@ func c10axisModel(c *Ctx, target *types.Func) bool {
 						if axis[2] == 'x' && n == 2 {
 							continue
 						}
-						if eq, ok := oEqual(res[1], oNil{}); ok && eq == invalid {
+						if eq, ok := oEqual(res[len(res)-1], oNil{}); ok && eq == invalid {
 							if invalid {
 								c.Bad("C10.R2", name, pos, "axis %q contains an unknown letter but no error is returned", axis)
 							} else {
@@ -400,4 +394,102 @@ func c10axisModel(c *Ctx, target *types.Func) bool {
 	c.Evals(runs)
 	c.OK("C10.R2", name, pos, "%d model runs (all 3-letter axis strings over e,w,n,s,u,d and an invalid letter × denorm × slices of 2 and 3 ordinates): no index leaves the slice; unknown letters give an error", runs)
 	return true
+}
+
+// c10axisStringOrder: for an adjuster that takes strings, which of them is the axis (0: the first).
+var c10axisStringOrder = map[*types.Func]int{}
+
+// c10axisArgs: arguments for a candidate axis adjuster, by parameter type: a *SR with the axis and
+// a name set, a bool (the direction flag), strings (the axis and a name, in the given order) and
+// the coordinate slice.  ok=false when the signature has anything else, no slice, or no way to
+// receive the axis, or does not end in an error result.
+func c10axisArgs(c *Ctx, fn *types.Func, axis string, denorm bool, n int, axisString int) ([]oval, bool) {
+	sig := fn.Type().(*types.Signature)
+	if sig.Recv() != nil || c.P.Decl(fn) == nil || sig.Results().Len() == 0 || sig.Params().Len() > 4 {
+		return nil, false
+	}
+	if !types.Identical(sig.Results().At(sig.Results().Len()-1).Type(), types.Universe.Lookup("error").Type()) {
+		return nil, false
+	}
+	srT := c.P.NamedType("proj", "SR")
+	it := &oInterp{p: c.P}
+	strT := types.Typ[types.String]
+	var args []oval
+	slices, axes, strs := 0, 0, 0
+	for i := 0; i < sig.Params().Len(); i++ {
+		t := sig.Params().At(i).Type()
+		switch u := t.Underlying().(type) {
+		case *types.Slice:
+			if b, ok := u.Elem().Underlying().(*types.Basic); !ok || b.Kind() != types.Float64 {
+				return nil, false
+			}
+			vals := make([]oval, n)
+			for k := range vals {
+				vals[k] = oFloat{int64(10 + 2*k)}
+			}
+			args = append(args, oSlice{typ: t, arr: &vals, lo: 0, hi: n, capEnd: n})
+			slices++
+		case *types.Pointer:
+			if srT == nil || !types.Identical(u.Elem(), srT) {
+				return nil, false
+			}
+			st := it.zero(srT).(*oStruct)
+			st.fields["Axis"] = strVal(strT, axis)
+			st.fields["Name"] = strVal(strT, "model")
+			args = append(args, oPtr{st})
+			axes++
+		case *types.Basic:
+			switch {
+			case u.Kind() == types.Bool:
+				args = append(args, oBool(denorm))
+			case u.Kind() == types.String:
+				if strs == axisString {
+					args = append(args, strVal(t, axis))
+					axes++
+				} else {
+					args = append(args, strVal(t, "model"))
+				}
+				strs++
+			default:
+				return nil, false
+			}
+		default:
+			return nil, false
+		}
+	}
+	return args, slices == 1 && axes >= 1
+}
+
+// c10isAxisAdjuster: the candidate accepts "enu" and answers an unknown letter with an error.
+func c10isAxisAdjuster(c *Ctx, fn *types.Func) bool {
+	it := &oInterp{p: c.P, maxDepth: 6}
+	errV := oIface{opaque: &oOpaque{name: "error", isError: true}}
+	it.stub = func(f *types.Func, recv oval, args []oval) ([]oval, bool) {
+		if f.FullName() == "fmt.Errorf" || f.FullName() == "errors.New" {
+			return []oval{errV}, true
+		}
+		if f.Pkg() != nil && f.Pkg().Path() == "fmt" {
+			return []oval{oTop{"fmt"}}, true
+		}
+		return nil, false
+	}
+	for order := 0; order < 2; order++ {
+		good, ok1 := c10axisArgs(c, fn, "enu", false, 2, order)
+		bad, ok2 := c10axisArgs(c, fn, "xnu", false, 2, order)
+		if !ok1 || !ok2 {
+			continue
+		}
+		r1, why1 := it.Call(fn, nil, good, 0)
+		r2, why2 := it.Call(fn, nil, bad, 0)
+		if why1 != "" || why2 != "" || len(r1) == 0 || len(r2) == 0 {
+			continue
+		}
+		e1, okA := oEqual(r1[len(r1)-1], oNil{})
+		e2, okB := oEqual(r2[len(r2)-1], oNil{})
+		if okA && okB && e1 && !e2 {
+			c10axisStringOrder[fn] = order
+			return true
+		}
+	}
+	return false
 }
